@@ -70,6 +70,58 @@ func runC13(c *Ctx) {
 	c13Hex(c)
 	c13Unterminated(c)
 	c13Verbatim(c)
+	c13LineBreakClass(c)
+}
+
+// c13LineBreakClass: the only raw characters that end a literal early are the line breaks of the language. The class
+// test the string scanner applies to each character is folded over ASCII and the Unicode separators: it must be true
+// exactly on the line-break set; a wider test (e.g. the range '\n'..'\r', which takes in VT and FF) rejects literals
+// holding those characters verbatim, a narrower one lets a literal run over a line end.
+func c13LineBreakClass(c *Ctx) {
+	const rule = "C13.linebreak-class"
+	f, _, ch, _ := c.stringScanner()
+	if f == nil || ch == nil {
+		c.R.Undecided(rule, "string scanner", "-", "string literal scanner not found")
+		return
+	}
+	var pred *ssa.Function
+	instrs(f, func(b *ssa.BasicBlock, i int, in ssa.Instruction) {
+		call, ok := in.(*ssa.Call)
+		if !ok || len(call.Call.Args) != 1 || !reaches(call.Call.Args[0], ch) {
+			return
+		}
+		if cal := calleeOf(call); cal != nil && c.inModule(cal) && isBoolType(call.Type()) {
+			pred = cal
+		}
+	})
+	if pred == nil {
+		c.R.Undecided(rule, "class-test", c.P.Pos(f.Pos()), "no class test on the scanned character found in the string scanner")
+		return
+	}
+	want := map[int64]bool{}
+	for _, r := range specLineBreaks {
+		want[int64(r)] = true
+	}
+	var samples []int64
+	for r := int64(0); r < 128; r++ {
+		samples = append(samples, r)
+	}
+	samples = append(samples, 0x84, 0x85, 0x86, 0xA0, 0x2027, 0x2028, 0x2029, 0x202A, 0x3000, 0xFEFF, 0xFFFD)
+	fold := &Folder{P: c.P, MaxDepth: 2}
+	bad := ""
+	for _, r := range samples {
+		res := fold.Fold(pred, []LV{intLV(r)})
+		v, ok := boolResult(res, 0)
+		if !ok {
+			bad = fmt.Sprintf("U+%04X: not decidable", r)
+			break
+		}
+		if v != want[r] {
+			bad = fmt.Sprintf("U+%04X ends a literal=%v, the line-break set says %v", r, v, want[r])
+			break
+		}
+	}
+	c.R.Check(rule, c.P.FuncKey(pred), c.P.Pos(pred.Pos()), bad == "", "the character class that ends a string literal early must be exactly the line-break set (LF, CR, U+2028, U+2029, U+0085); "+bad)
 }
 
 // escapeFn: the scanner method that decodes one escape: a method returning
